@@ -129,7 +129,7 @@ def build_traces(path, tier, seed):
         add({"kind": kind, "dt": enc(dt), "xi": enc(xi), "a": enc_seq(a), "periods": enc_seq(periods), "raised": raised,
              "sd": enc_seq(sd), "sv": enc_seq(sv), "sa": enc_seq(sa), "q": 1},
             {"kind": kind, "n": n, "dt": dt, "xi": xi, "periods": nper, "container": "ndarray (long, unsorted)", "raised": raised, "shape": shape})
-    nobj = 14 if tier == "quick" else 250
+    nobj = 18 if tier == "quick" else 250
     for i in range(nobj):
         n = gen.length(rng, 4, 120 if tier == "quick" else 400)
         a, shape = gen.record(rng, n, amp=1.0)
@@ -137,7 +137,7 @@ def build_traces(path, tier, seed):
         q = QS[i % 4]
         # shortest period / dt: ordinary values, values just below 20/k (the refinement factor must then be k + 1), and values
         # that make the factor odd (6.67 .. 10 -> 3; with min_dt_ratio 8 also 4 .. 5 -> 5, 2.86 .. 3.33 -> 7)
-        tmin_ratio = float([3.0, 6.0, 12.0, 25.0, 50.0, 5.99, 45.0, 20.0 / 2.0003, 20.0 / 3.0004, 20.0 / 4.0002, 20.0 / 1.0004, 8.0, 9.5, 4.5, 3.1, 7.0][int(rng.integers(16))])
+        tmin_ratio = float([3.0, 6.0, 12.0, 25.0, 50.0, 5.99, 45.0, 20.0 / 2.0003, 20.0 / 3.0004, 20.0 / 4.0002, 20.0 / 1.0004, 8.0, 9.5, 4.5, 3.1, 7.0][(i * 7) % 16 if i < 16 else int(rng.integers(16))])     # each regime at least once
         ratios = [tmin_ratio] + sorted(float(tmin_ratio * rng.uniform(1.1, 8.0)) for _ in range(int(rng.integers(0, 3))))
         if rng.integers(3) == 0:
             # resonance with the shortest period on a record of ODD length: the response is still growing when the record stops
